@@ -60,7 +60,7 @@ SetVerify(b) == /\ Can /\ verify' = b /\ Call("verify_version", b)
 PrefixVals == {NoneV, SomeV(33)}
 Intervals == {NoneV, SomeV(250), SomeV(1000)}
 Names == {NoneV, SomeV(<<97, 98, 99>>)}
-Admins == {NoneV, SomeV(<<112, 119>>)}
+Admins == {NoneV, SomeV(<<112, 119>>), SomeV(<<112, 228, 223>>)}      \* none, "pw", a password that is not ASCII
 FlagSets == {{}, {"MCI", "CON"}, FlagNames}
 
 Next == \/ \E f \in FlagNames, on \in BOOLEAN : SetFlag(f, on)
